@@ -593,7 +593,8 @@ def policy():
 
 # known-finding keys -> members they cover (a `finding: property=C07 key=<key>` line in known_findings.txt puts them in knownUnreset)
 FINDING_KEYS = {
-    "unreset-run-delete-info": ["run_info", "delete_info"],
+    "unreset-run-info": ["run_info"],
+    "unreset-delete-info": ["delete_info"],
     "unreset-unnumbered-solutions": ["unnumbered_solutions"],
     "unreset-caches": ["gfw_map", "rates_map"],
     "unreset-io-flags": ["io.punch_on", "io.dump_on"],
